@@ -16,7 +16,7 @@ MANIFEST = dict(
     note="trusted: TLC, SQLite as the database; one-to-many/many-to-one mapping with explicit integer keys only (no many-to-many, inheritance, "
          "composite or natural-key changes, merge); PostgreSQL/MariaDB not executable; histories end at a failed flush (C32 covers those)",
     technique="TLA+ spec (OrmGraph.tla) + TLC exhaustive model checking; spec->code replay of every state-graph edge into the real ORM")
-INVS = ["TypeOK", "BothSides", "RowsEqualGraph", "FkSound", "FlushClearsHistory", "MarkedArePersistent"]
+INVS = ["TypeOK", "BothSides", "RowsEqualGraph_ExceptStaleFk", "FkSound", "FlushClearsHistory", "MarkedArePersistent"]
 PROPS = ["FlushCompleteExceptReparented", "MarkedAreDeleted", "NoHistoryNoWrite", "CommittedOnlyAtFlush"]
 FOOT = oc.ALL_ACTS
 
@@ -44,6 +44,13 @@ def main(chk):
                         "parent before the flush is UPDATEd, stays persistent and stays in session.deleted; only a second flush() emits the DELETE "
                         "(dependency._OneToManyDP.presort_saves registers it with cancel_delete=True). Holds for every other history "
                         "(FlushCompleteExceptReparented).")]
+    expose.append(dict(name="stale-fk", casc="all", consts=oc.consts("all", 2, 6, acts=["Expunge", "SetParent", "Flush", "Add", "Append"], init="loaded"),
+                       inv="RowsEqualGraph", sig={"scope": "fk-attribute-written-while-the-child-was-outside-the-session"},
+                       what="rows differ from the in-memory graph after a flush: a flush that warns \"Object of type <C> not in session, add operation along "
+                            "'P.children' will not proceed\" nevertheless sets c.pid on the non-member child in memory; when the child is added again and "
+                            "moved back to its original parent (no net change on either relationship side) the next flush writes the stale attribute: "
+                            "c in p1.children, c.parent is p1, all members, row says pid = p2. Holds for every member whose FK attribute was never "
+                            "written outside the session (RowsEqualGraph_ExceptStaleFk)."))
     st = oc.run_suite(chk, rng, configs, FOOT, deep=deep, expose=expose, nontrivial=nontrivial)
     return chk.finish(
         dict(states=st["states"] + st["deep_states"], transitions=st["transitions"] + st["deep_transitions"],
